@@ -112,11 +112,33 @@ func VH06a_sub() {
 		verif.Assert(c1.SetOption(mangos.OptionReadQLen, qlen) == nil, lab+"/set-qlen-ctx")
 	}
 	rs := []*subref{{name: "sock", sock: sock, qlen: qlen}, {name: "ctx", c: c1, qlen: qlen}}
+	// directed family (parameter "script"): two subscriptions with arbitrary topics (overlapping, equal,
+	// empty, prefix of each other - all solver variables), two publications queue up, one topic
+	// (arbitrary again) is unsubscribed, then everything is received: deeper than the free-form history
+	// bound reaches.
+	var script []int
+	fixed := -1
+	if verif.Param("script", 0) == 1 {
+		script = []int{0, 0, 2, 2, 1, 3, 3, 3}
+		E = len(script)
+		fixed = verif.Choice("on", 2)
+	}
+	pick := func() *subref {
+		if fixed >= 0 {
+			return rs[fixed]
+		}
+		return rs[verif.Choice("ctx", 2)]
+	}
 	for e := 0; e < E; e++ {
-		ev := verif.Choice("ev", 4)
+		var ev int
+		if script != nil {
+			ev = script[e]
+		} else {
+			ev = verif.Choice("ev", 4)
+		}
 		switch ev {
 		case 0: // subscribe
-			r := rs[verif.Choice("ctx", 2)]
+			r := pick()
 			t := verif.Bytes("topic", verif.Choice("tlen", TL+1))
 			verif.Assert(r.opt().SetOption(mangos.OptionSubscribe, t) == nil, lab+"/subscribe-ok")
 			dup := false
@@ -129,7 +151,7 @@ func VH06a_sub() {
 				r.subs = append(r.subs, t)
 			}
 		case 1: // unsubscribe
-			r := rs[verif.Choice("ctx", 2)]
+			r := pick()
 			t := verif.Bytes("untopic", verif.Choice("tlen", TL+1))
 			uerr := r.opt().SetOption(mangos.OptionUnsubscribe, t)
 			idx := -1
@@ -159,7 +181,7 @@ func VH06a_sub() {
 				r.publish(b)
 			}
 		case 3: // Recv
-			r := rs[verif.Choice("ctx", 2)]
+			r := pick()
 			if r.rg != nil {
 				verif.Assume(false)
 			}
